@@ -769,6 +769,41 @@ fn for_each_schedule(ncalls: usize, k: usize, f: &mut dyn FnMut(&[(usize, Fault)
     rec(ncalls, 0, k, &mut vec![], f);
 }
 
+/// Runs /verif/stdonly (sml-rs with default features only) and converts its FINDING lines.
+fn stdonly_findings(counts: &mut Counts) -> Vec<Viol> {
+    let mut out = vec![];
+    let bin = match std::env::var("VERIF_STDONLY_BIN") {
+        Ok(b) => b,
+        Err(_) => {
+            // direct invocation of the binary without ./check: nothing to run
+            counts.inc("std-only driver not available (run through ./check)");
+            return out;
+        }
+    };
+    let o = match std::process::Command::new(&bin).output() {
+        Ok(o) => o,
+        Err(e) => crate::report::machinery(&format!("std-only driver {}: {}", bin, e)),
+    };
+    let text = String::from_utf8_lossy(&o.stdout).to_string();
+    let mut runs = None;
+    for l in text.lines() {
+        if let Some(r) = l.strip_prefix("FINDING ") {
+            let mut it = r.splitn(3, " :: ");
+            let class = it.next().unwrap_or("").to_string();
+            let key = it.next().unwrap_or("").to_string();
+            let what = it.next().unwrap_or("").to_string();
+            out.push(Viol { class, key: format!("stdonly:{}", key), what, case: J::obj().set("engine", "e3").set("check", "C11std").set("key", key.clone()), size: key.len() });
+        } else if let Some(r) = l.strip_prefix("RUNS ") {
+            runs = r.split_whitespace().next().and_then(|x| x.parse::<u64>().ok());
+        }
+    }
+    match runs {
+        Some(n) if o.status.success() => counts.addn("schedules run on the default-feature build", n),
+        _ => crate::report::machinery(&format!("std-only driver ended abnormally ({:?}): {}", o.status, text.lines().last().unwrap_or(""))),
+    }
+    out
+}
+
 pub fn run_c11(tier: Tier) -> ! {
     let ctx = Ctx::new("C11", tier);
     let mut tally = Tally::new();
@@ -869,6 +904,10 @@ pub fn run_c11(tier: Tier) -> ! {
         for v in out {
             tally.add(v);
         }
+    }
+    // the same property on the crate built with its default features (separate binary, see /verif/stdonly)
+    for v in stdonly_findings(&mut counts) {
+        tally.add(v);
     }
     let _ = for_each_schedule;
     ctx.log(&format!("{} streams, <= {} deviations: outcomes {:?}", streams.len(), kmax, counts.0));
@@ -1542,6 +1581,10 @@ pub fn replay(case: &J) -> Vec<Viol> {
                 .collect();
             let eh = case.get("source").and_then(|x| x.as_str()) == Some("embedded-hal");
             c11_case(&s, &sched, drv, eh, &mut out, &mut c);
+        }
+        Some("C11std") => {
+            let key = case.get("key").and_then(|x| x.as_str()).unwrap_or("").to_string();
+            out.extend(stdonly_findings(&mut c).into_iter().filter(|v| v.key == format!("stdonly:{}", key)));
         }
         Some("C10adapter") => {
             use sml_rs::SmlParse;
